@@ -484,7 +484,8 @@ Proof.
       unfold replies. rewrite writes_cb2. cbn [filter is_reply_wire reply_wire w_kind].
       constructor; [|constructor]. eapply reply_wire_ok; eauto.
     + destruct S as (h' & -> & _). constructor.
-  - unfold writer_absorb. cbn [c_q]. destruct q; constructor.
+  - unfold writer_absorb. cbn [c_q]. destruct q as [|d q]; [constructor|].
+    destruct (is_response d && has_complete d); constructor.
   - unfold writer_rereq. cbn [c_rq]. destruct rq as [|d rq']; [constructor|]. unfold emit. cbn [snd].
     destruct (has_complete d); constructor.
   - constructor.
@@ -559,7 +560,8 @@ Proof.
       repeat split; auto; [|constructor].
       destruct Hh' as [->|[k ->]]; auto. now apply reply_body_hstate.
   - unfold writer_absorb. cbn [c_q]. destruct q as [|d q]; [cbn [fst snd c_pending c_hand c_q c_rq c_seq c_h]; repeat split; auto; constructor|].
-    inversion Wq; subst. unfold quiet. cbn [fst snd c_pending c_hand c_q c_rq c_seq c_h]. repeat split; auto. constructor.
+    inversion Wq; subst.
+    destruct (is_response d && has_complete d); cbn [fst snd c_pending c_hand c_q c_rq c_seq c_h]; repeat split; auto; constructor; auto.
   - unfold writer_rereq. cbn [c_rq]. destruct rq as [|d rq']; [cbn [fst snd c_pending c_hand c_q c_rq c_seq c_h]; repeat split; auto; constructor|].
     inversion Wrq; subst. unfold emit. cbn [fst snd c_pending c_hand c_q c_rq c_seq c_h].
     repeat split; auto using next_seq_lt. destruct (has_complete d); constructor.
@@ -624,7 +626,8 @@ Proof.
     + destruct S as (rid & body & h' & _ & _ & _ & ->). right. eexists. unfold emit. cbn [fst snd c_seq].
       rewrite writes_cb2. repeat split; reflexivity.
     + destruct S as (h' & -> & _). left. split; reflexivity.
-  - left. unfold writer_absorb. cbn [c_q]. destruct q; split; reflexivity.
+  - left. unfold writer_absorb. cbn [c_q]. destruct q as [|d q]; [split; reflexivity|].
+    destruct (is_response d && has_complete d); split; reflexivity.
   - unfold writer_rereq. cbn [c_rq]. destruct rq as [|d rq']; [left; split; reflexivity|]. right.
     eexists. unfold emit. cbn [fst snd c_seq]. destruct (has_complete d); repeat split; reflexivity.
   - right. eexists. unfold writer_cmd, emit. cbn [fst snd c_seq]. repeat split; reflexivity.
@@ -683,7 +686,8 @@ Proof.
     destruct (answered d).
     + destruct S as (rid & body & h' & _ & _ & _ & ->). reflexivity.
     + destruct S as (h' & -> & _). reflexivity.
-  - unfold writer_absorb. cbn [c_q]. destruct q; reflexivity.
+  - unfold writer_absorb. cbn [c_q]. destruct q as [|d q]; [reflexivity|].
+    destruct (is_response d && has_complete d); reflexivity.
   - unfold writer_rereq. cbn [c_rq]. destruct rq as [|d rq']; [reflexivity|]. unfold emit. cbn [fst snd c_pending].
     destruct (has_complete d); reflexivity.
   - reflexivity.
@@ -718,7 +722,8 @@ Proof.
       rewrite writes_cb2. cbn [flat_map app]. unfold wire_report.
       cbn [reply_wire w_kind w_src]. rewrite (answered_complete d A). reflexivity.
     + destruct S as (h' & -> & _). reflexivity.
-  - unfold writer_absorb. cbn [c_q]. destruct q; reflexivity.
+  - unfold writer_absorb. cbn [c_q]. destruct q as [|d q]; [reflexivity|].
+    destruct (is_response d && has_complete d); reflexivity.
   - unfold writer_rereq. cbn [c_rq]. destruct rq as [|d rq']; [reflexivity|]. unfold emit. cbn [snd].
     destruct (has_complete d) eqn:Hc.
     + rewrite writes_cb2. cbn [flat_map app]. unfold wire_report. cbn [w_kind w_src]. rewrite Hc. reflexivity.
@@ -1086,3 +1091,147 @@ Qed.
 Theorem conversation_writes_run its :
   map wtag (writes (run_items its)) = items_writes None its.
 Proof. apply conversation_writes. apply init_idle. Qed.
+
+(* ------------------------------------------------------------------------------------------ *)
+(* Histories WITH absorption (no [no_absorb] hypothesis)                                      *)
+(* ------------------------------------------------------------------------------------------ *)
+Lemma outcomes_app a b : outcomes (a ++ b) = outcomes a ++ outcomes b.
+Proof. unfold outcomes. apply flat_map_app. Qed.
+Lemma absorbed_app a b : absorbed (a ++ b) = absorbed a ++ absorbed b.
+Proof. unfold absorbed. apply flat_map_app. Qed.
+
+Lemma srcs_cons w l : srcs (w :: l) = srcs [w] ++ srcs l.
+Proof. unfold srcs. cbn [flat_map]. now rewrite app_nil_r. Qed.
+
+Lemma outcomes_no_absorb t : absorbed t = [] -> outcomes t = srcs (replies t).
+Proof.
+  induction t as [|o t IH]; intros H. reflexivity.
+  change (o :: t) with ([o] ++ t) in *. rewrite absorbed_app in H. apply app_eq_nil in H. destruct H as [H1 H2].
+  rewrite outcomes_app, replies_app, srcs_app, (IH H2). f_equal.
+  destruct o; try reflexivity.
+  - unfold outcomes, replies. cbn [flat_map writes app filter]. rewrite app_nil_r.
+    destruct (is_reply_wire w); reflexivity.
+  - discriminate H1.
+Qed.
+
+Lemma step_absorbed c mv : mv <> MAbsorb -> absorbed (snd (step c mv)) = [].
+Proof.
+  intros Hmv. destruct c as [pend hand q rq sq h].
+  destruct mv as [| | | | |hh cmd body]; cbn [step]; try congruence.
+  - unfold reader_look. cbn [c_hand c_pending c_q c_rq c_seq c_h].
+    destruct hand; [reflexivity|]. destruct pend as [|d rest]; [reflexivity|].
+    destruct (lookup (m_id (d_m d))); cbn [snd]; [|reflexivity].
+    destruct (is_reissue d), (has_complete d); reflexivity.
+  - unfold reader_send. cbn [c_hand c_pending c_q c_rq c_seq c_h]. destruct hand as [d|]; [|reflexivity].
+    destruct (is_reissue d); [destruct (len rq <? REISSUE_CAP)|destruct (len q <? MSG_CAP)]; reflexivity.
+  - destruct q as [|d q]; [reflexivity|].
+    set (c := {| c_pending := pend; c_hand := hand; c_q := d :: q; c_rq := rq; c_seq := sq; c_h := h |}).
+    pose proof (writer_reply_spec c d q eq_refl) as S.
+    destruct (answered d).
+    + destruct S as (rid & body & h' & _ & _ & _ & ->). reflexivity.
+    + destruct S as (h' & -> & _). reflexivity.
+  - unfold writer_rereq. cbn [c_rq]. destruct rq as [|d rq']; [reflexivity|]. unfold emit. cbn [snd].
+    destruct (has_complete d); reflexivity.
+  - reflexivity.
+Qed.
+
+Lemma absorb_step_shape c :
+  (step c MAbsorb = (c, [])) \/
+  (exists d q, c_q c = d :: q /\ is_response d = true /\ has_complete d = true /\
+     step c MAbsorb = ({| c_pending := c_pending c; c_hand := c_hand c; c_q := q; c_rq := c_rq c;
+                          c_seq := c_seq c; c_h := c_h c |}, [OAbsorb d])).
+Proof.
+  cbn [step]. unfold writer_absorb. destruct (c_q c) as [|d q] eqn:Q. now left.
+  destruct (is_response d && has_complete d) eqn:E. 2:now left.
+  apply andb_true_iff in E. destruct E as [E1 E2]. right. exists d, q. auto.
+Qed.
+
+Lemma outcomes_step c mv : outcomes (snd (step c mv)) ++ phi (fst (step c mv)) = phi c.
+Proof.
+  destruct mv as [| | | | |hh cmd body];
+    try (rewrite outcomes_no_absorb by (apply step_absorbed; discriminate); apply phi_step; discriminate).
+  destruct (absorb_step_shape c) as [->|(d & q & Q & _ & _ & ->)]. reflexivity.
+  cbn [fst snd]. unfold phi, hand_l. cbn [c_q c_hand c_pending]. rewrite Q.
+  cbn [outcomes flat_map app filter]. rewrite app_nil_r. destruct (answered d); reflexivity.
+Qed.
+
+(* every history, absorption included: the answered messages dealt with so far (by their automatic
+   reply or by absorption), then those still held = the answered messages in arrival order *)
+Theorem outcomes_any_schedule c s : outcomes (trace c s) ++ phi (final c s) = phi c.
+Proof.
+  revert c. induction s as [|mv s IH]; intros c. reflexivity.
+  rewrite trace_cons, final_cons, outcomes_app, <- app_assoc, IH. apply outcomes_step.
+Qed.
+
+(* only complete messages with a response id are absorbed *)
+Theorem absorbed_are_responses c s :
+  Forall (fun d => is_response d = true /\ has_complete d = true) (absorbed (trace c s)).
+Proof.
+  revert c. induction s as [|mv s IH]; intros c. constructor.
+  rewrite trace_cons, absorbed_app. apply Forall_app. split; [|apply IH].
+  destruct mv as [| | | | |hh cmd body];
+    try (rewrite step_absorbed by discriminate; constructor).
+  destruct (absorb_step_shape c) as [->|(d & q & _ & R & C & ->)]. constructor.
+  cbn [snd absorbed flat_map app]. constructor; auto.
+Qed.
+
+(* of the response ids only 0x1003 has an automatic reply *)
+Lemma answered_response d : answered d = true -> is_response d = true -> m_id (d_m d) = 0x1003.
+Proof.
+  intros A R. unfold is_response in R. apply existsb_exists in R. destruct R as [x [Hin E]].
+  apply N.eqb_eq in E. unfold answered in A. apply andb_true_iff in A. destruct A as [_ A].
+  rewrite E in *. unfold response_ids in Hin. cbn [In] in Hin.
+  repeat (destruct Hin as [<-|Hin]; [try reflexivity; vm_compute in A; discriminate A|]).
+  contradiction.
+Qed.
+
+Lemma phi_step_no1003 c mv : Forall not_1003 (phi c) ->
+  srcs (replies (snd (step c mv))) ++ phi (fst (step c mv)) = phi c.
+Proof.
+  intros F.
+  destruct mv as [| | | | |hh cmd body]; try (apply phi_step; discriminate).
+  destruct (absorb_step_shape c) as [->|(d & q & Q & R & _ & ->)]. reflexivity.
+  cbn [fst snd]. unfold phi, hand_l in *. cbn [c_q c_hand c_pending]. rewrite Q in *.
+  cbn [replies writes flat_map filter srcs app] in *.
+  destruct (answered d) eqn:A; [|reflexivity].
+  inversion F as [|? ? N1 _]; subst. exfalso. apply N1. now apply answered_response.
+Qed.
+
+Theorem replies_any_schedule_no1003 c s : Forall not_1003 (phi c) ->
+  srcs (replies (trace c s)) ++ phi (final c s) = phi c.
+Proof.
+  revert c. induction s as [|mv s IH]; intros c F. reflexivity.
+  pose proof (phi_step_no1003 c mv F) as S.
+  assert (F' : Forall not_1003 (phi (fst (step c mv)))).
+  { rewrite <- S in F. apply Forall_app in F. tauto. }
+  rewrite trace_cons, final_cons, replies_app, srcs_app, <- app_assoc, (IH _ F'). exact S.
+Qed.
+
+(* summary statements *)
+Theorem outcomes_each ms s : drained (final (init ms) s) = true ->
+  outcomes (trace (init ms) s) = filter answered ms.
+Proof.
+  intros D. pose proof (outcomes_any_schedule (init ms) s) as R.
+  rewrite (phi_drained _ D), app_nil_r, phi_init in R. exact R.
+Qed.
+
+Theorem outcomes_prefix ms s : exists later, outcomes (trace (init ms) s) ++ later = filter answered ms.
+Proof. exists (phi (final (init ms) s)). rewrite <- phi_init. apply outcomes_any_schedule. Qed.
+
+Theorem absorbed_answered_are_1003 ms s d :
+  In d (absorbed (trace (init ms) s)) ->
+  is_response d = true /\ has_complete d = true /\ (answered d = true -> m_id (d_m d) = 0x1003).
+Proof.
+  intros H. pose proof (absorbed_are_responses (init ms) s) as F. rewrite Forall_forall in F.
+  destruct (F d H) as [R C]. repeat split; auto. intros A. now apply answered_response.
+Qed.
+
+Theorem one_reply_each_no1003 ms s : Forall not_1003 (filter answered ms) ->
+  drained (final (init ms) s) = true ->
+  srcs (replies (trace (init ms) s)) = filter answered ms /\
+  Forall reply_ok (replies (trace (init ms) s)).
+Proof.
+  intros F D. split; [|apply replies_ok_any_schedule].
+  pose proof (replies_any_schedule_no1003 (init ms) s) as R. rewrite phi_init in R. specialize (R F).
+  rewrite (phi_drained _ D), app_nil_r in R. exact R.
+Qed.
